@@ -86,6 +86,30 @@ def _list_items(fi: FuncInfo, it: ast.AST) -> Optional[Tuple[List[str], Optional
         if items_of_kwargs(e) or comp_of_kwargs(e):
             covers = kw
             return True
+        if isinstance(e, ast.Call) and isinstance(e.func, ast.Attribute) and e.func.attr == "items" and not e.args and isinstance(e.func.value, ast.Name):
+            # a dict bound to a local, possibly extended by .update(...) calls before the loop
+            from .x_flow import unique_def
+
+            d = unique_def(fi, e.func.value.id)
+            if not isinstance(d, ast.Dict):
+                return False
+            if not walk(ast.Call(func=ast.Attribute(value=d, attr="items", ctx=ast.Load()), args=[], keywords=[])):
+                return False
+            for c in q.calls(fi.node):
+                if isinstance(c.func, ast.Attribute) and q.dotted(c.func.value) == e.func.value.id and c.func.attr not in ("items", "keys", "values", "get"):
+                    if c.func.attr != "update" or len(c.args) != 1 or c.keywords:
+                        return False
+                    a0 = c.args[0]
+                    if isinstance(a0, ast.Name) and a0.id == kw:
+                        covers = kw
+                    elif items_of_kwargs(a0) or comp_of_kwargs(a0):
+                        covers = kw
+                    elif isinstance(a0, ast.Dict):
+                        if not walk(ast.Call(func=ast.Attribute(value=a0, attr="items", ctx=ast.Load()), args=[], keywords=[])):
+                            return False
+                    else:
+                        return False
+            return True
         if isinstance(e, ast.Call) and isinstance(e.func, ast.Attribute) and e.func.attr == "items" and not e.args and isinstance(e.func.value, ast.Dict):
             # {"label": param, ..., **kwargs}.items()
             for k_, v_ in zip(e.func.value.keys, e.func.value.values):
@@ -137,6 +161,15 @@ def candidate_loops(repo: Repo, fi: FuncInfo) -> List[ValidationLoop]:
             continue
         li = _list_items(fi, n.iter)
         if li is None:
+            # a loop that rejects values by a regex but whose table is not understood must not silently count as
+            # "no validation" (that would turn an unrecognised refactoring into a violation at the sinks)
+            if isinstance(n.target, ast.Tuple) and len(n.target.elts) == 2 and isinstance(n.target.elts[1], ast.Name) and any(isinstance(x, ast.Raise) for x in ast.walk(n)):
+                vv0 = n.target.elts[1].id
+                for x in ast.walk(n):
+                    if isinstance(x, (ast.Call, ast.Compare)):
+                        rg = regex_guard(repo, fi, x)
+                        if rg is not None and rg.var == vv0:
+                            raise AnalysisError("%s: validation loop over a table that is not understood: %s" % (fi.qualname, q.unparse(n.iter)[:80]))
             continue
         params, covers = li
         if not (isinstance(n.target, ast.Tuple) and len(n.target.elts) == 2 and isinstance(n.target.elts[1], ast.Name)):
@@ -219,7 +252,9 @@ def analyse(repo: Repo, forbidden: Iterable[int], sanitizers=("format_timestamp"
     leaves the loop's value variable clean, the loop cannot stop early)."""
     from .x_http import norm_func
 
-    fi = norm_func(repo, repo.func(WEB, "RequestHandler.set_cookie"), depth=3, no_inline={"_convert_header_value"})
+    from .x_objalias import subst_object_aliases
+
+    fi = subst_object_aliases(norm_func(repo, repo.func(WEB, "RequestHandler.set_cookie"), depth=3, no_inline={"_convert_header_value"}))
     forbidden = list(forbidden)
     cands = candidate_loops(repo, fi)
     sources = text_params(fi)
